@@ -258,6 +258,10 @@ func (g *G) block() {
 func (g *G) step() {
 	r := g.r
 	p := g.p
+	if p.Genesis && r.P(1, 6) {
+		// the round trip is also tried in mid-history, while records are pending and ballots are open
+		g.emit("genesis")
+	}
 	ws := []int{p.Settle, p.Admin, p.Oracle, p.Malformed, 6}
 	switch r.Weighted(ws) {
 	case 0:
@@ -401,7 +405,7 @@ func (g *G) record(t *tenant) {
 			req = rng.Pick(r, t.pending) // duplicate
 		}
 	case 1:
-		req = rng.Pick(r, []string{"", "r", "r1\x00", "\xff\xfe", "r10", "shared"})
+		req = rng.Pick(r, []string{"", "r", "r1\x00", "\xff\xfe", "r10", "shared", "\xe2\x82\xac", "\xf0\x90\x80", "\xc0\xaf"})
 	}
 	amt := rng.Pick(r, []int{1, 2, 3, 7, 10, 50, 99, 400, 3000})
 	denom := t.denom
@@ -574,7 +578,12 @@ func (g *G) oracleOp() {
 		if r.P(1, 20) && rs >= 2*g.vp {
 			round = rs - 2*g.vp
 		}
-		g.emit("prevote %s %s %s %d", feeder, vt, e(VoteHash(salt, vd)), round)
+		hash := VoteHash(salt, vd)
+		if r.P(1, 16) {
+			// the hash is an unvalidated string: not hex, empty, not UTF-8 (stored and exported as given)
+			hash = rng.Pick(r, []string{"\xff\xfe", "", "nothex", "\xc3\x28", "ok\xe2\x82\xac", "\xed\xa0\x80"})
+		}
+		g.emit("prevote %s %s %s %d", feeder, vt, e(hash), round)
 		g.prev[v] = &commit{round: round, salt: salt, vd: vd}
 	case 5, 6, 7, 8, 9:
 		c := g.prev[v]
